@@ -1,18 +1,19 @@
 import Mkdb.Proofs.Aggregate
 import Mkdb.Proofs.NoPanicExec
 import Mkdb.Proofs.GroupNoAgg
+import Mkdb.Proofs.AliasCapture
 /-!
 # C07 — COUNT, AVG and GROUP BY compute true aggregates
 
 Property theorems only (proofs in `Mkdb/Proofs/Aggregate.lean`, `NoPanicExec.lean`,
-`GroupNoAgg.lean`).
+`GroupNoAgg.lean`, `AliasCapture.lean`).
 Full statement for GROUP BY and COUNT; AVG is a *known finding*: the code keeps a
 cumulative average rounded after every row, so "AVG = round(sum/count), independent of row
 order" is false of the code and of the model — `C07_avg_counterexample` is its witness and
 `C07_avg_partial` what does hold.
 -/
 namespace Mkdb.Exec
-open Mkdb.Sql Mkdb.Exec.AggP Mkdb.Exec.NoPanicP Mkdb.Exec.GroupNoAggP
+open Mkdb.Sql Mkdb.Exec.AggP Mkdb.Exec.NoPanicP Mkdb.Exec.GroupNoAggP Mkdb.Exec.AliasCaptureP
 
 /-- **C07.one_group_per_key**: grouping produces exactly one group per distinct tuple of
 grouping values, in first-occurrence order. -/
@@ -90,6 +91,27 @@ theorem C07_groupKey_def (idxs : List Nat) (r : Row) :
 /-- `SELECT k FROM t GROUP BY k` on the rows 1, 2, 1 is the rows 1, 2 -/
 example : aggregateRows [⟨.expr (.val (.col ⟨[], [107]⟩)), []⟩] [⟨[], [107]⟩]
     [[.int 1], [.int 2], [.int 1]] = .ok [[.int 1], [.int 2]] := rfl
+
+/-- **C07.qualified_group_column_not_captured_by_alias**: a qualified GROUP BY reference `t.b`
+matches a select-list element only as that very column reference - the alias alternative and the
+bare-name alternative of `DerivedColumn.Matches` need an unqualified reference (`SELECT a AS b ...
+GROUP BY t.b` used to group by `a`: the defect repaired in `Matches`).  Hence the select-list
+column a qualified GROUP BY reference designates (`groupIdx`) is a reference to that column. -/
+theorem C07_qualified_group_column_not_captured_by_alias :
+    (∀ (d : DerivedCol) (rhs : ColRef), rhs.qual ≠ [] → d.matches rhs = true →
+      ∃ lhs, d.item = .expr (.val (.col lhs)) ∧ lhs.equals rhs = true) ∧
+    (∀ (sl : List DerivedCol) (g : ColRef) (i : Nat), g.qual ≠ [] → groupIdx sl g = some i →
+      ∃ d lhs, sl[i]? = some d ∧ d.item = .expr (.val (.col lhs)) ∧ lhs.equals g = true) :=
+  ⟨fun _ _ hq h => matches_qualified hq h,
+   fun sl g i hq h => qualified_group_column_not_captured_by_alias sl g hq i h⟩
+
+/-- `ColumnReference.Equals` is equality of qualifier and name -/
+theorem C07_colref_equals_eq {lhs rhs : ColRef} (h : lhs.equals rhs = true) : lhs = rhs :=
+  ColRef_equals_eq h
+
+/-- `a AS b` does not match `t.b`; `t.b AS c` does -/
+example : (⟨.expr (.val (.col ⟨[116], [97]⟩)), [98]⟩ : DerivedCol).matches ⟨[116], [98]⟩ = false ∧
+    (⟨.expr (.val (.col ⟨[116], [98]⟩)), [99]⟩ : DerivedCol).matches ⟨[116], [98]⟩ = true := by decide
 
 /-- **C07.avg_partial**: the cumulative average is exact when all values are equal or there is one value. -/
 theorem C07_avg_partial (x : Int) (n : Nat) : runningAvg [x] = x ∧ runningAvg (List.replicate (n + 1) x) = x :=
